@@ -295,6 +295,7 @@ def main():
     if a.replay:
         rp, o = native(json.load(open(a.replay))['case']); print(o); sys.exit(1 if rp else 0)
     rep = R.Report('C07', a.tier, seed); timeout = solve.TIMEOUT_MS[a.tier]
+    R.prefetch_native('props.c07_native', ['bounded', str(seed), a.tier])      # the stand-in runs while the obligations are discharged
     u = Under()
     for m, names in ((AMOD, ['_add_round_key', '_sub_bytes', '_inv_sub_bytes', '_delta_last_rounds', '_first_key', '_last_key'] + [c + '.__new__' for c in AES_CLASSES]),
                      (DMOD, ['_des_function', '_add_round_key', '_sboxes', '_first_round', '_delta_last_rounds', '_first_key', '_last_key'] + [c + '.__new__' for c in DES_CLASSES]),
